@@ -483,6 +483,106 @@ var scenarios = []scenario{
 		c.doClient(c.nodes[2], []entryType{entryUpdate})
 		c.replicate(2)
 	}, 3, true},
+	{"local-snapshot-finishes-after-a-newer-one-was-installed", func(c *simCluster) {
+		// node 3 starts a snapshot of its own; before the snapshot goroutine runs, the leader installs a newer
+		// snapshot on it; then the old one completes: index, term and configuration of the latest snapshot
+		// must stay those of the newer one
+		c.elect(1)
+		c.replicate(1)
+		c.doClient(c.nodes[1], []entryType{entryUpdate, entryUpdate})
+		c.replicate(1)
+		c.doClient(c.nodes[1], []entryType{entryUpdate})
+		c.replicate(1)
+		c.snapshotStep(c.nodes[3]) // the request only; the goroutine is held
+		// a new leader in a new term, node 3 cut off
+		c.loseQuorum(1)
+		c.disconnect(2, 1)
+		c.electWith(2, 1)
+		n := c.nodes[2]
+		if rp := n.l.repls[3]; n.cur == Leader && rp != nil {
+			c.upd[2] = append(c.upd[2], replUpdate{&rp.status, noContact{time.Now(), errSimAbort}})
+			for len(c.upd[2]) > 0 && n.cur == Leader {
+				c.doReplUpdate(n)
+			}
+		}
+		for k := 0; k < 14; k++ {
+			c.doClient(n, []entryType{entryUpdate, entryUpdate, entryUpdate})
+			c.replicate(2, 1)
+		}
+		for k := 0; k < 3; k++ {
+			c.snapshotStep(n)
+		}
+		c.doClient(n, []entryType{entryUpdate})
+		c.replicate(2, 1)
+		if rp := n.l.repls[3]; n.cur == Leader && rp != nil {
+			c.upd[2] = append(c.upd[2], replUpdate{&rp.status, noContact{time.Time{}, nil}})
+			for len(c.upd[2]) > 0 && n.cur == Leader {
+				c.doReplUpdate(n)
+			}
+		}
+		c.replicate(2) // node 3 gets the snapshot of the new term
+		// now node 3's own, older snapshot completes
+		c.snapshotStep(c.nodes[3])
+		c.snapshotStep(c.nodes[3])
+		// node 3 becomes leader and probes the others right above its snapshot
+		c.loseQuorum(2)
+		c.disconnect(1, 2)
+		c.disconnect(3, 2)
+		c.electWith(3, 1)
+		c.replicate(3)
+	}, 3, true},
+	{"promotion-while-a-snapshot-is-pending", func(c *simCluster) {
+		// the leader accepted a snapshot request (label captured); while the snapshot goroutine has not run,
+		// a non-voter catches up and is promoted: the label must still be the one captured
+		c.elect(1)
+		c.replicate(1)
+		_ = c.addNode(4, nil)
+		c.changeConfigWith(1, func(cfg *Config) {
+			cfg.Nodes[4] = Node{ID: 4, Addr: "M4:8888", Action: Promote}
+		})
+		c.replicate(1, 2, 3) // committed; node 4 has heard nothing yet
+		c.doClient(c.nodes[1], []entryType{entryUpdate})
+		c.replicate(1, 2, 3)
+		c.snapshotStep(c.nodes[1]) // request: label = (applied index, committed configuration)
+		for k := 0; k < 4; k++ {
+			c.replicate(1) // node 4 catches up and is promoted
+		}
+		c.snapshotStep(c.nodes[1])
+		c.snapshotStep(c.nodes[1])
+		c.crash(1, true)
+	}, 3, false},
+	{"transfer-times-out-with-an-action-pending", func(c *simCluster) {
+		// two demotions requested at once; a transfer to a node that never answers starts before the first
+		// commits, so the second is postponed; when the transfer times out it must be taken up again
+		c.elect(1)
+		c.replicate(1)
+		c.changeConfigWith(1, func(cfg *Config) {
+			for _, v := range []uint64{4, 5} {
+				nn := cfg.Nodes[v]
+				nn.Action = Demote
+				cfg.Nodes[v] = nn
+			}
+		})
+		c.transfer(1, 3)
+		// the timeout-now request to node 3 is lost
+		var keep []*simMsg
+		for _, m := range c.net {
+			if m.kind != rpcTimeoutNow {
+				keep = append(keep, m)
+			}
+		}
+		c.net = keep
+		c.replicate(1) // the first demotion commits while the transfer is in progress
+		n := c.nodes[1]
+		if n.cur == Leader && n.l.transfer.timer.active {
+			c.run(n, "transferTimeout", "(ELeader LTransferTimeout)", func() (response, []string) {
+				n.l.transfer.timer.active = false
+				n.l.onTransferTimeout()
+				return nil, nil
+			})
+		}
+		c.replicate(1)
+	}, 5, false},
 	{"snapshot-compaction-then-updates", func(c *simCluster) {
 		c.elect(1)
 		c.replicate(1)
